@@ -7,6 +7,7 @@
 //!   rlv gen <suite> <tier> <seed>
 //!       prints generated cases (NDJSON) for a suite to stdout.
 mod gen;
+mod gen2;
 mod mon;
 mod proj;
 mod util;
